@@ -19,6 +19,7 @@ from vf.refs import sb31_rom as rom
 
 ID = "C05"
 ROTATING_PKI = 0.3  # fraction of the key / certificate paths that are rotating slots (vf/pki.py)
+DECOY_CWD = True  # the worker runs in a directory that holds other bytes under every input file name (vf/worker.py)
 LEVEL = "exploration"
 TECHNIQUE = "runtime monitoring: independent ROM-loader model over exported files + signer hook + bit-flip sweep"
 RULE = (
